@@ -338,6 +338,7 @@ package client
 //@   ensures [C13:permitted-only-after-success] permInv(perm)
 //@   ensures [C13:nil-means-permitted] res == nil ==> perm.st == permStatePermitted && granted[perm]
 //@   ensures forall q :: q != perm ==> granted[q] == old(granted[q])
+//@   ensures [C14:failed-peer-forgotten] res != nil ==> !has(a.permMap.permMap, ipKey(addr))
 //@   ensures [C13:only-removes-on-failure] forall k :: haskey(a.permMap.permMap, k) ==> old(haskey(a.permMap.permMap, k)) && valat(a.permMap.permMap, k) == old(valat(a.permMap.permMap, k))
 //@   ghost-set granted[perm] = true when res == nil && old(perm.st) == permStateIdle
 //@   assigns perm.st, granted, a._nonce, lastResponse, cpOK, entries(a.permMap.permMap)
